@@ -377,8 +377,14 @@ func (i *IRCServer) ExpireSessions() []*robust.Message {
 	return deletes
 }
 
-// truncateUsername cuts |username| after maxUserLen characters.
+// truncateUsername cuts |username| at the first space and after maxUserLen
+// characters. The username is part of the prefix of every line which the
+// session sends, so it must be a single word: clients cannot send a space
+// in it, but services can (as the last parameter of a short NICK).
 func truncateUsername(username string) string {
+	if idx := strings.IndexByte(username, ' '); idx > -1 {
+		username = username[:idx]
+	}
 	n := 0
 	for idx := range username {
 		if n == maxUserLen {
